@@ -68,6 +68,19 @@ SPECS = [
          params={'date': ('date', 'Z')},
          signature=[('start', ('option', 'Z')), ('end_', ('option', 'Z')), ('day_hours', ('weekmap',)), ('date', 'Z')], ret=ONUM,
          calls={'.weekday': ('recv_fn', 'weekday', ('fun', ['Z'], 'Z', False), [])}),
+    # constructor validation (RuntimeError = Err); a constructor is translated as its validation, the fields it stores are
+    # the arguments (checked by the translator)
+    dict(file='calendar.py', cls='FixedCalendar', func='__init__', coq_name='src_fixed_init',
+         params={'units': ('units', 'num'), 'start': ('start', ('option', 'Z')), 'end': ('end_', ('option', 'Z'))},
+         defaults={'start': 'None', 'end': 'None'},
+         stores={'self.__units': 'units', 'self.__start': 'start', 'self.__end': 'end'},
+         signature=[('units', 'num'), ('start', ('option', 'Z')), ('end_', ('option', 'Z'))], ret='unit'),
+    dict(file='calendar.py', cls='WeeklyCalendar', func='__check_start_end', coq_name='src_check_start_end',
+         params={'start': ('start', ('option', 'Z')), 'end': ('end_', ('option', 'Z'))},
+         signature=[('start', ('option', 'Z')), ('end_', ('option', 'Z'))], ret='unit'),
+    dict(file='calendar.py', cls='WeeklyCalendar', func='__check_working_days', coq_name='src_check_working_days',
+         params={'working_days': ('working_days', ('option', ('list', 'Z')))},
+         signature=[('working_days', ('option', ('list', 'Z')))], ret='unit'),
     dict(file='resource.py', cls='Resource', func='get_available_units', coq_name='src_resource_units',
          fields={'self.calendar': ('calendar', CALFN)},
          params={'date': ('date', 'Z')}, ignored_params=('task',),
